@@ -53,6 +53,10 @@ func NewStunServer(h *simnet.Host, addr string) *StunServer {
 // VerifWithTURNClientFactory). Listen/Allocate/Close act on simnet; Allocate parks until the
 // simulator releases it and may be failed by it.
 type TurnStub struct {
+	// Deallocated / Undeallocated: allocations whose relayed connection was closed while the client's control
+	// connection was still open (released on the server) / after it was closed (the allocation stays on the
+	// server until its lifetime runs out)
+	Deallocated, Undeallocated int
 	// RelayCloseErr, if set, makes Close of every relayed connection return this error.
 	RelayCloseErr error
 	W             *simnet.World
@@ -131,7 +135,29 @@ func (c *TurnClientStub) Allocate() (net.PacketConn, error) {
 	c.stub.mu.Lock()
 	c.Allocated = append(c.Allocated, conn)
 	c.stub.mu.Unlock()
-	return conn, nil
+	// like pion/turn's relayed connection: closing it releases the allocation on the server by a Refresh with
+	// lifetime 0 sent through the client's control connection - which must still be open at that moment
+	return &allocConn{PacketConn: conn, client: c}, nil
+}
+
+type allocConn struct {
+	net.PacketConn
+	client *TurnClientStub
+	once   sync.Once
+}
+
+// Close releases the allocation if the control connection still exists, and closes the relayed socket.
+func (a *allocConn) Close() error {
+	a.once.Do(func() {
+		a.client.stub.mu.Lock()
+		if a.client.CloseCalls > 0 {
+			a.client.stub.Undeallocated++
+		} else {
+			a.client.stub.Deallocated++
+		}
+		a.client.stub.mu.Unlock()
+	})
+	return a.PacketConn.Close()
 }
 
 // Close implements the TURN client interface.
